@@ -30,12 +30,47 @@ from .common import calls
 from .common import kw
 
 
+class _Inline(ast.NodeTransformer):
+    def __init__(self, env: Dict[str, ast.expr]) -> None:
+        self.env = env
+
+    def visit_Name(self, node: ast.Name) -> ast.AST:
+        if isinstance(node.ctx, ast.Load) and node.id in self.env:
+            return self.env[node.id]
+        return node
+
+    def visit_Await(self, node: ast.Await) -> ast.AST:
+        return self.visit(node.value)
+
+
 def _single_return(fn: FuncInfo) -> Optional[ast.expr]:
+    """The returned expression of a function that is `[x = e]* return r`, with the
+    single-assignment locals substituted (so `p = self.compile(path); return
+    p.findall(...)` reads like the one-line form).  None if the body has another shape."""
+    import copy
+
     body = _strip_docstring(fn.node.body)
-    if len(body) == 1 and isinstance(body[0], ast.Return) and body[0].value is not None:
-        v = body[0].value
-        return v.value if isinstance(v, ast.Await) else v
+    env: Dict[str, ast.expr] = {}
+    for s_ in body[:-1]:
+        if (
+            isinstance(s_, (ast.Assign, ast.AnnAssign))
+            and (s_.value is not None)
+            and isinstance(s_.targets[0] if isinstance(s_, ast.Assign) else s_.target, ast.Name)
+        ):
+            name = (s_.targets[0] if isinstance(s_, ast.Assign) else s_.target).id  # type: ignore[union-attr]
+            if name in env:
+                return None
+            env[name] = _Inline(env).visit(copy.deepcopy(s_.value))
+        else:
+            return None
+    if body and isinstance(body[-1], ast.Return) and body[-1].value is not None:
+        return _Inline(env).visit(copy.deepcopy(body[-1].value))
     return None
+
+
+def _shape_error(rule: str, fn: FuncInfo) -> AnalysisError:
+    return AnalysisError(f"{rule}: {fn.qualname} is not a sequence of simple assignments followed by one return; "
+                         "this delegation shape is not recognised")
 
 
 def _forwards(call: ast.Call, positional: List[str], keywords: List[str]) -> bool:
@@ -52,6 +87,8 @@ def r11_1(ctx: Ctx) -> RuleResult:
         if fn is None:
             raise AnalysisError(f"JSONPathEnvironment.{name} not found")
         v = _single_return(fn)
+        if v is None:
+            raise _shape_error("R11.1", fn)
         ok = False
         if isinstance(v, ast.Call) and isinstance(v.func, ast.Attribute) and v.func.attr == name:
             recv = v.func.value
@@ -70,6 +107,8 @@ def r11_1(ctx: Ctx) -> RuleResult:
     if q is None:
         raise AnalysisError("JSONPathEnvironment.query not found")
     v = _single_return(q)
+    if v is None:
+        raise _shape_error("R11.1", q)
     ok = False
     if isinstance(v, ast.Call) and callee_name(v) == "Query" and len(v.args) == 2 and path_of(v.args[1]) == "self":
         inner = v.args[0]
@@ -110,6 +149,8 @@ def r11_2(ctx: Ctx) -> RuleResult:
         if fn is None:
             raise AnalysisError(f"JSONPath.{name} not found")
         v = _single_return(fn)
+        if v is None:
+            raise _shape_error("R11.2", fn)
         ok = False
         if isinstance(v, ast.ListComp) and len(v.generators) == 1 and not v.generators[0].ifs:
             g = v.generators[0]
@@ -155,6 +196,8 @@ def r11_2(ctx: Ctx) -> RuleResult:
         if q is None:
             raise AnalysisError(f"{cls.name}.query not found")
         v = _single_return(q)
+        if v is None:
+            raise _shape_error("R11.2", q)
         ok = False
         if isinstance(v, ast.Call) and callee_name(v) == "Query" and len(v.args) == 2 and path_of(v.args[1]) == "self.env":
             a = v.args[0]
